@@ -229,10 +229,26 @@ fn replay_one<P: Pay>(ops: &[Op], cfg: &Cfg) -> Result<u64, Value> {
                 if qq.time() != emb.map(*time) {
                     return Err(fail(i, "time", emb.map(*time), qq.time()));
                 }
-                checks += 4;
+                if qq.len_zero() + qq.len_nonzero() != *len {
+                    return Err(fail(i, "len_zero + len_nonzero", len, qq.len_zero() + qq.len_nonzero()));
+                }
+                if qq.peek_time().is_some() != (*len > 0) {
+                    return Err(fail(i, "peek_time is Some iff the queue is not empty", *len > 0, qq.peek_time().is_some()));
+                }
+                checks += 6;
             }
             Op::Fetch { id, t, len, time } => {
                 let qq = q.as_mut().unwrap();
+                // the timestamp fetch_next is about to return, without changing anything
+                let before = (qq.len(), qq.time());
+                let peek = catch_unwind(AssertUnwindSafe(|| qq.peek_time()));
+                let Ok(peek) = peek else { return Err(fail(i, "peek_time panicked", "value", "panic")) };
+                if peek != Some(emb.map(*t)) {
+                    return Err(fail(i, "peek_time before fetch_next", emb.map(*t), peek));
+                }
+                if (qq.len(), qq.time()) != before {
+                    return Err(fail(i, "peek_time changed len / time", before, (qq.len(), qq.time())));
+                }
                 let r = catch_unwind(AssertUnwindSafe(|| qq.fetch_next()));
                 let Ok((p, d)) = r else { return Err(fail(i, "fetch_next panicked", "value", "panic")) };
                 if p.id() != *id {
